@@ -184,3 +184,18 @@ def check(run):
         for fb in fam:
             rd |= set(n for (_b, ow, n, _sp) in fb.field_reads() if ow.endswith("BlockExec"))
         o.check({"state_hash", "tx_count"} <= rd, "end_block|reports-computed", "the reported commitment/tx count are the ones computed for that block", b.span)
+
+    if run.tier == "thorough":
+        witness(run, "O20.1w")
+
+
+def witness(run, oid):
+    o = run.ob(oid, "type-level witnesses (compile_fail doctests with compiling twins)", "the type system carries this part of the property across module boundaries", floor=3)
+    from engine import witness as W
+    res = W.run_witness()
+    if len(res) == 1 and res[0][0].startswith("skipped"):
+        o.ok("witness|skipped", res[0][2], "", nontrivial=False)
+        o.floor = 1
+        return
+    for name, ok, detail in W.expect(['StateSharedWriteFails', 'StateSharedWriteTwin', 'ForkIsAValueTwin'], res):
+        o.check(ok, "witness|" + name, "doctest %s behaves as expected (%s)" % (name, "must not compile" if name.endswith("Fails") else "compiles"), "witness/src/lib.rs", {"detail": detail})
